@@ -68,6 +68,30 @@ CHECKS = {
              'are judged for containment only. Library arguments are capped at 1e6 and integer powers with astronomically '
              'large integer exponents are excluded (resource exhaustion is not part of C05).',
         ref='DESIGN.md 5 C05'),
+    'C01': dict(
+        technique='TLA+ two-layer spec: structured big-step meaning (BareCore.ExecBlock) vs lowering + jump machine '
+                  '(BareLower.Lower, BareCore.Run); TLC equivalence model checking over the exhaustive program family '
+                  '(MC_Struct) + TLC trace validation of real parse_script+execute_script runs against ExecBlock (Trace_Struct)',
+        text='TLC checks on every program of StructFamily (all chains of the 11 positioned constructs x loop tails x contexts, '
+             'depth 2; depth 3 in the thorough tier) x inputs that the structured meaning and the jump machine on the lowering '
+             'agree on result, probe sequence and globals. Every program of the family under a covering input set, and random '
+             'programs to depth 5 with up to 3 functions, are rendered to source text, parsed and executed by the real code; '
+             'each recorded run must be a behaviour of the structured meaning (probes inside conditions make the number of '
+             'condition evaluations observable). A rejected trace is attributed to the open finding F7 only if the '
+             'implementation-shaped layer with exactly the WhileContinueSkipsTest deviation accepts it.',
+        note='Bodies that mutate the iterated array are left to C15; the index variable after an exhausted for loop is an '
+             'allowed set (A20). Known finding F7 (while+continue) is reported as KNOWN-FINDING, see KNOWN_FINDINGS.txt.',
+        ref='DESIGN.md 5 C01'),
+    'C07': dict(
+        technique='TLC model checking of WellFormed(Lower(p)) over the program family (MC_Struct invariant WF) + TLC evaluation of '
+                  'WellFormed on the REAL parse_script output (Trace_WF) with validate_script / lint_script observations',
+        text='WellFormed (per scope: every reserved-prefix jump target defined exactly once in that scope, every reserved label '
+             'targeted) is an invariant of the lowering for every program of StructFamily; the real parser\'s model of every '
+             'enumerated program and of random deeper programs is converted by alpha and WellFormed is evaluated on it by TLC; '
+             'the real validate_script must accept it and lint_script must report no label warning.',
+        note='Depth 2 family in the quick tier (12.7k programs incl. contexts), depth 3 in the thorough tier; random programs '
+             'to depth 6 / 8. Label names are classified as reserved by their __bareScript prefix in alpha.',
+        ref='DESIGN.md 5 C07'),
 }
 
 NOT_YET = 'check not built yet in this round (work in progress; see DESIGN.md section 9 build order)'
